@@ -10,7 +10,7 @@ class IntraClassShuffleWrapper(KDSubset):
     def __init__(self, dataset, seed=None):
         num_classes = dataset.getdim_class()
         classes = getall_as_tensor(dataset)
-        rng = GlobalRng if seed is None else np.random.default_rng(seed=seed)
+        rng = GlobalRng() if seed is None else np.random.default_rng(seed=seed)
         # create permutation per class
         cls_to_perm = []
         for i in range(num_classes):
